@@ -5,6 +5,7 @@ from ..cfg import Cfg, reach
 from ..common import body_by_name, callee_names, const_value_of, family, impl_methods, switch_atom
 from ..facts import callee, const_int, const_str, op_const, op_local, op_place
 from ..flow import Flow, identity_through
+from ..inline import inlined, same_impl_helpers
 
 CONFIGS_QUICK = ["K1"]
 WITNESS_PREFIX = "C13"
@@ -91,7 +92,7 @@ def tuple_rule(rep, prog, cfg):
         rep.check(ok, rule, tag + " command_list feeds", b.loc(b.span),
                   "commands do not feed CommandList::new / add in position order (feeds: %s)" % feed)
         # ---- responses ----
-        b = d["responses"][1]
+        b = inlined(prog, d["responses"][1], same_impl_helpers(d["responses"][1], module=True))
         g = Cfg(b)
         fl = Flow(b)
         nexts = [bb for bb, t in b.calls() if NEXT in callee_names(t)]
@@ -166,6 +167,27 @@ def vec_rule(rep, prog, cfg):
             leaves, _ = fl.sources([op_local(t["args"][1])], through_call=through, follow_mut=False)
             if any(x[0] == "call" and CMD + "response" in callee_names(b.blocks[x[1]]["t"]) for x in leaves):
                 push_ok = True
+        # adapter form: zip(..).map(|(command, frame)| command.response(frame)).collect()
+        if not resp and not pushes:
+            from .C12 import closure_of_local
+            maps = [(bb, t) for bb, t in b.calls() if "core::iter::traits::iterator::Iterator::map" in callee_names(t)]
+            cols = [(bb, t) for bb, t in b.calls() if "core::iter::traits::iterator::Iterator::collect" in callee_names(t)]
+            if len(maps) == 1 and len(cols) == 1:
+                mbb, mt = maps[0]
+                lm, _ = fl.sources([op_local(mt["args"][0])], through_call=lambda t, k=None: (0,), follow_mut=False)
+                lc, _ = fl.sources([op_local(cols[0][1]["args"][0])], through_call=lambda t, k=None: (0,), follow_mut=False)
+                lr, _ = fl.sources([0], through_call=through, follow_mut=False)
+                clo = closure_of_local(prog, b, op_local(mt["args"][1]))
+                if clo is not None and ("call", zbb) in lm and ("call", mbb) in lc and ("call", cols[0][0]) in lr:
+                    cresp = [(bb, t) for bb, t in clo.calls() if CMD + "response" in callee_names(t)]
+                    if len(cresp) == 1:
+                        p0 = tuple_pos(clo, op_local(cresp[0][1]["args"][0]))
+                        p1 = tuple_pos(clo, op_local(cresp[0][1]["args"][1]))
+                        fl2 = Flow(clo)
+                        lz, _ = fl2.sources([0], through_call=through, follow_mut=False)
+                        pos_ok = p0 == 0 and p1 == 1
+                        push_ok = ("call", cresp[0][0]) in lz
+                        detail = {"command_from": p0, "frame_from": p1, "form": "zip.map.collect"}
         back = set()
         for bb, t in b.calls():
             for n in callee_names(t):
